@@ -6,6 +6,7 @@
    Inputs:
      "unit"    every set of disjoint base pairs on the positions 0..NPos-1 (the empty set, nested,
                crossing, multiply crossing ones), default scores, in every presentation of Variants
+               and every such set on 0..NPosOne-1 in presentation 2 only
      "scored"  every such set on 0..NPosScored-1 with every score vector over ScoreVals
      "short"   every such set on 0..NPosScored-1 with a strand one base too short (no maximum order)
    "unit" and "scored" with max_pseudoknot_order = None and every value of MaxOrderVals.
@@ -15,7 +16,7 @@
    The states of phase 1 are the cases of S2: the real functions are called with `inp`, and
    must return `res`. *)
 EXTENDS Pseudoknot
-CONSTANTS NPos, NPosScored, ScoreVals, MaxOrderVals, Variants
+CONSTANTS NPos, NPosOne, NPosScored, ScoreVals, MaxOrderVals, Variants
 VARIABLES inp, res, phase
 vars == <<inp, res, phase>>
 
@@ -51,6 +52,8 @@ Init ==
   /\ res = NoRes
   /\ \/ \E m \in Matchings(NPos) : \E v \in Variants : \E maxo \in MaxOrders :
           \E bp \in {Present(m, v)} : inp = Case("unit", bp, <<>>, maxo, StrandLen(bp, v))
+     \/ \E m \in Matchings(NPosOne) : \E maxo \in MaxOrders :
+          \E bp \in {Present(m, 2)} : inp = Case("unit", bp, <<>>, maxo, StrandLen(bp, 2))
      \/ \E m \in Matchings(NPosScored) \ {{}} : \E maxo \in MaxOrders :
           \E bp \in {Present(m, 2)} : \E sc \in [1..Len(bp) -> ScoreVals] :
              inp = Case("scored", bp, <<sc>>, maxo, StrandLen(bp, 2))
